@@ -35,6 +35,10 @@ func runC14(c *Check, tier string) {
 	if w := findWalker(c, "R14g"); w != nil {
 		shareRule(c, "R14g", "after the callback returned the node routine reports a completion on every path unless the walk's own context is done (same obligation as R04c)", 1, "R04c", func(sub *Check) { ruleR04c(sub, w) }, func(k string) bool { return strings.Contains(k, "completion-on-every-exit") })
 	}
+	// round 7: the wrapper lines that carry the exit status cannot be consumed by the command
+	ruleCommandNotOnStdin(c, "R14n")
+	if false {
+	}
 }
 
 // R14f: a target that declares outputs is reported successful only after a call that looked at every
